@@ -16,7 +16,8 @@ from concurrent.futures import ThreadPoolExecutor
 import vlib
 
 CMDS = ["r", "s", "b", "t"]
-WD_OK = 30000      # watchdog (ms) of a schedule the model says terminates
+WD_OK = 6000       # watchdog (ms) of a schedule the model says terminates (a disagreement is re-run with WD_RERUN)
+WD_RERUN = 12000
 WD_HANG = 400      # watchdog of a schedule the model says cannot terminate (kept few)
 
 # base advance sequences: the digit is what run_condition() returns when the thread is released from it
@@ -77,9 +78,7 @@ def norm(words):
     """harness words in the driver's spelling (asynchronous commands are echoed in upper case)"""
     out = []
     for w in words:
-        if w == "hang":
-            w = "j:hang"
-        elif w[0] in "RSBT":
+        if w[0] in "RSBT":
             w = w[0].lower() + w[1:]
         out.append(w)
     return out
@@ -106,17 +105,27 @@ def harness_line(toks, dwords, wd):
     return "life %d %s" % (wd, " ".join(ht))
 
 
-def run_parallel(binary, lines, chunk=150):
+def run_parallel(binary, lines, chunk=150, stop_after=None):
+    """run the lines through several harness processes; `stop_after(outs_so_far)` may end the run early
+    (remaining lines are answered `skipped`)"""
     if not lines:
         return [], {}
+    workers = max(2, min(vlib.NPROC, 12))
     chunks = [lines[i:i + chunk] for i in range(0, len(lines), chunk)]
     outs, logs = [], {}
-    with ThreadPoolExecutor(max_workers=max(2, min(vlib.NPROC, 12))) as ex:
-        res = list(ex.map(lambda c: vlib.run_harness(binary, c, timeout=3600), chunks))
-    for ci, (o, l) in enumerate(res):
-        for k, v in l.items():
-            logs[ci * chunk + k] = v
-        outs.extend(o)
+    env = {"H_LIFE_MAX_HANGS": "3"}
+    with ThreadPoolExecutor(max_workers=workers) as ex:
+        for w0 in range(0, len(chunks), workers):
+            wave = chunks[w0:w0 + workers]
+            if stop_after is not None and stop_after(outs):
+                for c in wave:
+                    outs.extend(["skipped"] * len(c))
+                continue
+            res = list(ex.map(lambda c: vlib.run_harness(binary, c, timeout=3600, env=env), wave))
+            for o, l in res:
+                for k, v in l.items():
+                    logs[len(outs) + k] = v
+                outs.extend(o)
     return outs, logs
 
 
@@ -144,7 +153,7 @@ def parse_words(words):
                     ev.append(("S", int(e[1:])))
                 elif e[0] == "E":
                     ev.append(("E", int(e[1:])))
-        if tok == "j":
+        if tok in ("j", "jt"):
             ev.append(("J", int(f[3]), int(f[4])))
         else:
             ev.append(("obs", f[2], int(f[3]), int(f[4])))
@@ -172,7 +181,7 @@ def clauses(ev):
                 rb = [{"a": "ar", "b": "c"}.get(m, m) for m in rb]
                 if ended:
                     run_after_end = True
-            if c in "sb":
+            if c in "sb" and not (len(e) > 2 and e[2]):
                 reqs.append(0)
             if c == "b":
                 rb.append("a")
@@ -261,12 +270,16 @@ def gen_free(g, n):
 
 
 def parse_free(out):
-    """log of a free run -> chronological events; a request counts from its return for 'after the
-    request' clauses and from its begin for 'run was requested' (the store lies in between)"""
+    """log of a free run -> chronological events.  The store of a command lies somewhere between its begin
+    and end marks, so every clause is evaluated for the placement most favourable to the implementation:
+    'run was requested' counts from the begin mark, 'after the request' from the end mark, and a reset /
+    reboot during whose call an Init was logged counts as honoured already."""
     ev = []
+    init_in_window = False
     for w in out.split()[0].split(".") if out and not out.startswith("hang") else []:
         if w == "I":
             ev.append(("I",))
+            init_in_window = True
         elif w[0] == "S":
             ev.append(("S", int(w[1:])))
         elif w[0] == "E":
@@ -274,10 +287,11 @@ def parse_free(out):
         elif w == "P":
             ev.append(("ended",))
         elif w[0] == "<":
+            init_in_window = False
             if w[1] == "r":
                 ev.append(("cmd", "r"))
         elif w[0] == ">":
-            ev.append(("rdone",) if w[1] == "r" else ("cmd", w[1]))
+            ev.append(("rdone",) if w[1] == "r" else ("cmd", w[1], init_in_window))
         elif w[0] == "J":
             f = w.split(":")
             ev.append(("J", int(f[1]), int(f[2])))
@@ -287,30 +301,36 @@ def parse_free(out):
 # ------------------------------------------------------------------ the check
 
 def finalize(ctx, scheds):
-    """driver pass: decide the tail (j / t j), the asynchronous commands and the watchdog of every schedule.
-    Returns list of dict(toks, kind, dline, hline, dwords)."""
+    """driver passes: decide the tail (j / jt / t j / t jt), the asynchronous commands and the watchdog of every
+    schedule.  Returns list of dict(toks, kind, dline, hline, dwords, wd)."""
     first = vlib.run_driver(["life cur " + " ".join(t + ["j"]) for t, _ in scheds])
     keep_hang = ctx.n(6, 40)
-    cases, redo = [], []
+    pre = []
     nh = 0
-    for (toks, kind), d in zip(scheds, first):
+    for idx, ((toks, kind), d) in enumerate(zip(scheds, first)):
         dw = d.split()
         if two_pending(dw):
             continue
         if dw and dw[-1] == "j:hang":
             if nh < keep_hang and (kind.startswith("exh") and len(toks) % 3 == 0 or nh < 2):
                 nh += 1
-                cases.append({"toks": toks + ["j"], "kind": kind + ":hang", "dwords": dw, "wd": WD_HANG})
+                pre.append((toks + ["j"], kind + ":hang"))
             else:
-                redo.append((toks + ["t", "j"], kind))
+                # teardown, then the join — with run_condition() true for ever in every other case
+                pre.append((toks + ["t", "jt" if idx % 2 else "j"], kind + ":td"))
+        elif "t" in toks and idx % 2:
+            pre.append((toks + ["jt"], kind + ":jt"))
         else:
-            cases.append({"toks": toks + ["j"], "kind": kind, "dwords": dw, "wd": WD_OK})
-    second = vlib.run_driver(["life cur " + " ".join(t) for t, _ in redo])
-    for (toks, kind), d in zip(redo, second):
+            pre.append((toks + ["j"], kind))
+    second = vlib.run_driver(["life cur " + " ".join(t) for t, _ in pre])
+    cases = []
+    for (toks, kind), d in zip(pre, second):
         dw = d.split()
         if two_pending(dw):
             continue
-        cases.append({"toks": toks, "kind": kind + ":td", "dwords": dw, "wd": WD_HANG if dw[-1] == "j:hang" else WD_OK})
+        hang = dw[-1].endswith(":hang")
+        dw = ["hang" if w.endswith(":hang") else w for w in dw]
+        cases.append({"toks": toks, "kind": kind, "dwords": dw, "wd": WD_HANG if hang else WD_OK})
     for c in cases:
         c["hline"] = harness_line(c["toks"], c["dwords"], c["wd"])
         c["dline"] = "life cur " + " ".join(c["toks"])
@@ -335,37 +355,60 @@ def run(ctx):
     if ctx.replay:
         rp = json.load(open(ctx.replay))["replay"]
         toks = rp["schedule"].split()
-        scheds = [(toks[:-1] if toks and toks[-1] == "j" else toks, "replay")]
-    cases = finalize(ctx, scheds)
-    if ctx.replay:
-        cases = [c for c in cases if c["toks"] == json.load(open(ctx.replay))["replay"]["schedule"].split()] or cases[:1]
+        d = vlib.run_driver(["life cur " + " ".join(toks)])[0].split()
+        hang = d[-1].endswith(":hang")
+        d = ["hang" if w.endswith(":hang") else w for w in d]
+        c = {"toks": toks, "kind": "replay", "dwords": d, "wd": WD_HANG if hang else WD_RERUN}
+        c["hline"] = harness_line(toks, d, c["wd"])
+        cases = [c]
+    else:
+        cases = finalize(ctx, scheds)
 
-    houts, logs = run_parallel(binary, [c["hline"] for c in cases])
+    dw_of = [c["dwords"] for c in cases]
+
+    def too_many(outs):
+        n = 0
+        for i, o in enumerate(outs):
+            if o != "skipped" and norm(o.split()) != dw_of[i]:
+                n += 1
+        return n >= 12
+
+    houts, logs = run_parallel(binary, [c["hline"] for c in cases], stop_after=too_many)
     mism, prop_bad = [], []
     hist_kind, clause_hits = {}, {}
-    crashes = 0
+    crashes = skipped = 0
     for i, (c, h) in enumerate(zip(cases, houts)):
+        if h == "skipped":
+            c["skipped"] = True
+            skipped += 1
+            continue
         hist_kind[c["kind"]] = hist_kind.get(c["kind"], 0) + 1
         hw = norm(h.split())
         c["hwords"] = hw
         if any(w.startswith("crash:") for w in hw):
             crashes += 1
-        same = hw == c["dwords"]
         bad = clauses(parse_words(hw))
         if bad:
             prop_bad.append((c, bad))
-        if not same:
+        if hw != c["dwords"]:
             mism.append(c)
-    # a disagreement must reproduce (the scheduled runs do not depend on timing on correct code)
+    cases = [c for c in cases if not c.get("skipped")]
+    # a disagreement must reproduce (on correct code the scheduled runs do not depend on timing); the re-run
+    # gets a long watchdog so that a slow machine cannot turn into a `hang`
     confirmed, flaky = [], 0
-    for c in mism[:40]:
-        again, _ = vlib.run_harness(binary, [c["hline"]])
-        if norm(again[0].split()) != c["dwords"]:
+    mism.sort(key=lambda c: len(c["toks"]))
+    for c in mism[:3]:
+        again, _ = vlib.run_harness(binary, [harness_line(c["toks"], c["dwords"], WD_RERUN if c["wd"] == WD_OK else c["wd"])])
+        aw = norm(again[0].split())
+        if aw != c["dwords"]:
+            c["hwords"] = aw
             confirmed.append(c)
+            break
         else:
             flaky += 1
-    if flaky > 5:
-        confirmed += [c for c in mism if c not in confirmed][:1]
+    prop_bad = [(c, clauses(parse_words(c["hwords"]))) for c, _ in prop_bad if c not in mism[:3] or c in confirmed]
+    prop_bad = [(c, b) for c, b in prop_bad if b]
+    prop_bad.sort(key=lambda cb: len(cb[0]["toks"]))
 
     def first_diff(c):
         for j, (a, b) in enumerate(zip(c["hwords"] + ["<end>"] * 200, c["dwords"] + ["<end>"] * 200)):
@@ -408,9 +451,11 @@ def run(ctx):
 
     # free-running real-thread runs: the clauses evaluated on wall-clock interleavings
     flines = gen_free(ctx.gen("free"), ctx.n(60, 1500))
-    if ctx.replay:
-        flines = []
-    fouts, flogs = run_parallel(binary, flines, chunk=20)
+    if ctx.replay or confirmed or prop_bad:
+        flines = []      # already failing: the free runs would only add time-outs
+    fouts, flogs = run_parallel(binary, flines, chunk=20, stop_after=lambda outs: sum(1 for o in outs if o.endswith("hang")) >= 3)
+    keep = [i for i, o in enumerate(fouts) if o != "skipped"]
+    flines, fouts = [flines[i] for i in keep], [fouts[i] for i in keep]
     free_bad = []
     fsteps = 0
     for ln, o in zip(flines, fouts):
@@ -447,7 +492,7 @@ def run(ctx):
         "program_counters_visited_on_impl": pcs,
         "control_edges_visited_on_impl": edges, "control_edges_not_visited": missing_edges,
         "deferred_commands_checked": sum(1 for c in ok_cases for w in c["dwords"] if w.endswith(":d")),
-        "sanitizer_crashes": crashes + len(logs) + len(flogs),
+        "sanitizer_crashes": crashes + len(logs) + len(flogs), "schedules_skipped_after_early_stop": skipped,
     })
     if missing_edges and not ctx.replay:
         ctx.notes.append("model control edges not exercised on the implementation: %s" % missing_edges)
